@@ -155,10 +155,10 @@ def arith_ops(g, elt, n, m1, m2, short=False):
            ("div_assign_s", nz(g, elt)), ("sub_assign_s", sval(g, elt)), ("sub_assign", C()), ("add_assign_own", C())]
     if short:
         val = g.shuffle(val)[:2]; mut = g.shuffle(mut)[:3]
-        return val + mut + [("dump",), ("mulv", svec(g, elt, n)), ("det",)]
+        return val + mut + [("dump",), ("mulv", svec(g, elt, n))] + ([("det",)] if elt == 'rat' else [])
     ops = list(val)
     for m in mut: ops += [m, ("dump",)]
-    return ops + [("mulv", svec(g, elt, n)), ("getall",), ("det",)]
+    return ops + [("mulv", svec(g, elt, n)), ("getall",)] + ([("det",)] if elt == 'rat' else [])
 
 def generate(rng, tier):
     cases = []
@@ -193,7 +193,10 @@ def generate(rng, tier):
                 B0 = gen_band(g, p, n, m1, m2, 'f64', pads=(PAD_WILD if wild else PAD_F64))
                 B = to_elt(g, B0, elt, sc)
                 b = [x * sc for x in svec(g, elt, n)]
-                ops = [("mulv", svec(g, elt, n)), ("det",), ("solve", b)]
+                # determinant and solution of a (nearly) singular float system are rounding noise that depends on the
+                # order of equal-magnitude pivots: they are neither tied nor judged (the exact tier covers singular input)
+                ops = [("mulv", svec(g, elt, n))]
+                if cond_inf(dense_of(B, zero_of(elt))) <= COND_LIMIT: ops += [("det",), ("solve", b)]
                 if n <= 3: ops = [("getall",)] + ops
                 cases.append(mk(elt, B, ops, "%s-lin-%s%s" % (elt, p, "-wildpad" if wild else "")))
         if n <= 4 or (thorough and g.chance(1, 3)):
@@ -254,8 +257,8 @@ def generate(rng, tier):
                 i = g.below(n); j = g.range(max(0, i - m1), i + m2); ops.append(("set", i, j, sval(g, elt)))
             elif k == 6: ops.append(("getall",))
             elif k == 7: ops.append(("mulv", svec(g, elt, n)))
-            elif k == 8: ops.append(("det",))
-            elif k == 9: ops.append(("solve", svec(g, elt, n)))
+            elif k == 8 and elt == 'rat': ops.append(("det",))          # floats: see (c); histories reach singular states
+            elif k == 9 and elt == 'rat': ops.append(("solve", svec(g, elt, n)))
             elif k == 10: ops.append((g.choice(["add_assign_s", "sub_assign_s"]), sval(g, elt)))
             elif k == 11: ops.append((g.choice(["mul_assign_s", "div_assign_s", "scale", "div"]), nz(g, elt)))
             elif k == 12: ops.append(("neg",))
